@@ -234,6 +234,30 @@ theorem vm_number_handlers (c : Cfg) (N : NumOps) (a b : Nat) :
     vmOp c N "bitop" "&" (.num a) (.num b) = bitop32 false "&" a b ∧ vmOp c N "bitopu" ">>" (.num a) (.num b) = bitop32 true ">>" a b :=
   ⟨rfl, rfl, rfl, rfl, rfl, rfl, rfl⟩
 
+/-! ## conversions back: int/to-number, int/to-bytes -/
+
+/-- `(double) n` is exact for |n| ≤ 2^53: decoding the produced bit pattern gives n back -/
+theorem int_to_double_exact (n : Int) (h : -two53 ≤ n ∧ n ≤ two53) : (decode (encodeInt n)).toInt? = some n :=
+  decode_encodeInt n h
+
+/-- `int/to-number` succeeds exactly on [-2^53, 2^53] (bound regenerated from janet.h), and then `(int/s64 (int/to-number x))`
+    (resp. `int/u64`) is x again -/
+theorem to_number_round_trip (c : Cfg) (N : NumOps) (v : Int) :
+    (-two53 ≤ v ∧ v ≤ two53 → evalFn c N "int/to-number" [.s64 v] = .ok (Val.ofInt v) ∧ unwrapS (Val.ofInt v) = .ok v) ∧
+    (v < -two53 ∨ two53 < v → evalFn c N "int/to-number" [.s64 v] = .err .tonum) ∧
+    (0 ≤ v ∧ v ≤ two53 → evalFn c N "int/to-number" [.u64 v] = .ok (Val.ofInt v) ∧ unwrapU (Val.ofInt v) = .ok v) ∧
+    (two53 < v → evalFn c N "int/to-number" [.u64 v] = .err .tonum) := by
+  have h := toNumber_eval c N v
+  refine ⟨fun hv => ⟨h.1 hv, (unwrap_ofInt v hv).1⟩, h.2.1, fun hv => ⟨h.2.2.1 hv.2, (unwrap_ofInt v ⟨?_, hv.2⟩).2 hv.1⟩, h.2.2.2⟩
+  have := hv.1
+  simp only [two53] at *
+  omega
+
+/-- `int/to-bytes`: eight bytes, each < 256, whose little-endian value is the 64-bit pattern of the integer -/
+theorem to_bytes_round_trip (v : Int) :
+    (toBytesLE v).length = 8 ∧ (∀ b ∈ toBytesLE v, b < 256) ∧ (ofBytesLE (toBytesLE v) : Int) = wrapU v :=
+  toBytes_round_trip v
+
 /-! ## current tree (obligations over the regenerated `Gen/Int64.lean`) -/
 
 /-- ★ on the current source no 64-bit integer method performs an undefined C operation.
